@@ -314,7 +314,7 @@ theorem axlup_passthrough (c : UpCfg) (s : UpState) (m : AxlM) (r : AxlS) :
     let q := Up.toSlave c s m
     let o := Up.toMaster c s m r
     q.awvalid = m.awvalid ∧ q.wvalid = m.wvalid ∧ q.arvalid = m.arvalid ∧ q.bready = m.bready ∧ q.rready = m.rready ∧
-    q.awaddr = m.awaddr / c.nbTo * c.nbTo ∧ q.araddr = m.araddr / c.nbTo * c.nbTo ∧
+    q.awaddr = m.awaddr / c.nbTo * c.nbTo % 2 ^ c.abits ∧ q.araddr = m.araddr / c.nbTo * c.nbTo % 2 ^ c.abits ∧
     o.awready = r.awready ∧ o.wready = r.wready ∧ o.arready = r.arready ∧ o.bvalid = r.bvalid ∧ o.bresp = r.bresp ∧
     o.rvalid = r.rvalid ∧ o.rresp = r.rresp := by
   simp [Up.toSlave, Up.toMaster]
@@ -322,7 +322,7 @@ theorem axlup_passthrough (c : UpCfg) (s : UpState) (m : AxlM) (r : AxlS) :
 /-- Negative witness (32→64): AR 0x0 is accepted, then the master presents AR 0x4 while the R of the first read
     is outstanding; the wide word 0x11111111_00000000 comes back and the master is handed lane 1. -/
 example :
-    let c : UpCfg := { ratio := 2, nbFrom := 4 }
+    let c : UpCfg := { ratio := 2, nbFrom := 4, abits := 32 }
     let S := Up.machine c
     let s := S.runFrom S.init [({ AxlM.idle with arvalid := true, araddr := 0 }, { AxlS.idle with arready := true })]
     (S.out s ({ AxlM.idle with arvalid := true, araddr := 4, rready := true },
